@@ -135,6 +135,8 @@ impl CompactionHandover {
         );
 
         let drained_labels = {
+            #[cfg(feature = "verif-hooks")]
+            crate::verif_hooks::point("ho.before_lock", self.shard_id as u64);
             let _guard = self.flush_lock.lock().await;
             #[cfg(feature = "verif-hooks")]
             crate::verif_hooks::point("ho.locked", self.shard_id as u64);
